@@ -369,18 +369,29 @@ theorem OKo.setEdges {s : State} {dst : HeapId} {e : Nat} (n : Nat) (es : List N
   · simp only [heq, if_false]
     exact ⟨oe, ho, hp⟩
 
-/-- A finished copy: owned by `dst`, pointing into `dst` or `thr`, all out-edges OK. -/
-def Fin (s : State) (dst thr : HeapId) (n : Nat) : Prop :=
-  ∃ o, s.obj n = some o ∧ o.owner = dst ∧ (o.home = dst ∨ (o.home = thr ∧ o.kind = .cell)) ∧
-    o.kind ≠ .thread ∧ ∀ e ∈ o.edges, OKo s dst e
+/-- kinds the cloner allocates: the kind of the original; a string array only by the repaired
+    rule (the unrepaired shallow copy is excluded by `CloneCtx.noShallow`). -/
+def KindNew (fixed : Bool) (k : Kind) : Prop :=
+  k = .plain ∨ k = .cell ∨ (k = .shallow ∧ fixed = true)
 
-theorem Fin.mono {a b : State} {dst thr : HeapId} {n : Nat} (hwf : WF a) (hx : Ext a b)
-    (h : Fin a dst thr n) : Fin b dst thr n := by
+theorem KindNew.ne_thread {fixed : Bool} {k : Kind} (h : KindNew fixed k) : k ≠ .thread := by
+  rcases h with h | h | ⟨h, _⟩ <;> simp [h]
+
+theorem KindNew.ne_code {fixed : Bool} {k : Kind} (h : KindNew fixed k) : k ≠ .code := by
+  rcases h with h | h | ⟨h, _⟩ <;> simp [h]
+
+/-- A finished copy: owned by `dst`, pointing into `dst` or `thr`, all out-edges OK. -/
+def Fin (fixed : Bool) (s : State) (dst thr : HeapId) (n : Nat) : Prop :=
+  ∃ o, s.obj n = some o ∧ o.owner = dst ∧ (o.home = dst ∨ (o.home = thr ∧ o.kind = .cell)) ∧
+    KindNew fixed o.kind ∧ ∀ e ∈ o.edges, OKo s dst e
+
+theorem Fin.mono {fixed : Bool} {a b : State} {dst thr : HeapId} {n : Nat} (hwf : WF a) (hx : Ext a b)
+    (h : Fin fixed a dst thr n) : Fin fixed b dst thr n := by
   obtain ⟨o, ho, h1, h2, h3, h4⟩ := h
   exact ⟨o, by rw [hx.2 n (hwf.lt ho)]; exact ho, h1, h2, h3, fun e he => (h4 e he).mono hwf hx⟩
 
-theorem Fin.setEdges_other {s : State} {dst thr : HeapId} {n m : Nat} (es : List Nat)
-    (hne : m ≠ n) (h : Fin s dst thr m) : Fin (s.setEdges n es) dst thr m := by
+theorem Fin.setEdges_other {fixed : Bool} {s : State} {dst thr : HeapId} {n m : Nat} (es : List Nat)
+    (hne : m ≠ n) (h : Fin fixed s dst thr m) : Fin fixed (s.setEdges n es) dst thr m := by
   obtain ⟨o, ho, h1, h2, h3, h4⟩ := h
   refine ⟨o, ?_, h1, h2, h3, fun e he => (h4 e he).setEdges n es⟩
   simp only [State.setEdges, hne, if_false]
@@ -405,17 +416,17 @@ structure CI (s0 : State) (dst : HeapId) (c : Cl) : Prop where
   vis : ∀ v n, (v, n) ∈ c.vis → ∃ o, c.s.obj n = some o ∧ o.owner = dst
 
 /-- Postcondition of one `cloneVal`. -/
-structure Post (s0 : State) (dst thr : HeapId) (c c' : Cl) (r : Nat) : Prop where
+structure Post (fixed : Bool) (s0 : State) (dst thr : HeapId) (c c' : Cl) (r : Nat) : Prop where
   ci : CI s0 dst c'
   ext : Ext c.s c'.s
   ok : OKo c'.s dst r
-  fin : ∀ n, c.s.next ≤ n → n < c'.s.next → Fin c'.s dst thr n
+  fin : ∀ n, c.s.next ≤ n → n < c'.s.next → Fin fixed c'.s dst thr n
 
-structure PostL (s0 : State) (dst thr : HeapId) (c c' : Cl) (rs : List Nat) : Prop where
+structure PostL (fixed : Bool) (s0 : State) (dst thr : HeapId) (c c' : Cl) (rs : List Nat) : Prop where
   ci : CI s0 dst c'
   ext : Ext c.s c'.s
   ok : ∀ r ∈ rs, OKo c'.s dst r
-  fin : ∀ n, c.s.next ≤ n → n < c'.s.next → Fin c'.s dst thr n
+  fin : ∀ n, c.s.next ≤ n → n < c'.s.next → Fin fixed c'.s dst thr n
 
 theorem lookupVis_mem {vis : List (Nat × Nat)} {v n : Nat} (h : lookupVis vis v = some n) :
     (v, n) ∈ vis := by
@@ -428,11 +439,11 @@ theorem lookupVis_mem {vis : List (Nat × Nat)} {v n : Nat} (h : lookupVis vis v
     · rename_i heq; cases h; subst heq; exact List.mem_cons_self
     · exact List.mem_cons_of_mem _ (ih h)
 
-theorem cloneEdges_post {s0 : State} {dst thr : HeapId} {Rel : Nat → Prop}
+theorem cloneEdges_post {fixed : Bool} {s0 : State} {dst thr : HeapId} {Rel : Nat → Prop}
     (k : Cl → Nat → Option (Cl × Nat))
-    (hk : ∀ c v c' r, CI s0 dst c → Rel v → k c v = some (c', r) → Post s0 dst thr c c' r) :
+    (hk : ∀ c v c' r, CI s0 dst c → Rel v → k c v = some (c', r) → Post fixed s0 dst thr c c' r) :
     ∀ (es : List Nat) (c c' : Cl) (rs : List Nat), CI s0 dst c → (∀ e ∈ es, Rel e) →
-      cloneEdges k c es = some (c', rs) → PostL s0 dst thr c c' rs := by
+      cloneEdges k c es = some (c', rs) → PostL fixed s0 dst thr c c' rs := by
   intro es
   induction es with
   | nil =>
@@ -466,13 +477,13 @@ theorem cloneEdges_post {s0 : State} {dst thr : HeapId} {Rel : Nat → Prop}
           · exact (p1.fin n h1 hn).mono p1.ci.wf p2.ext
           · exact p2.fin n (by omega) h2
 
-theorem viaVisited_post {s0 : State} {dst thr : HeapId} {Rel : Nat → Prop}
+theorem viaVisited_post {fixed : Bool} {s0 : State} {dst thr : HeapId} {Rel : Nat → Prop}
     (k : Cl → Nat → Option (Cl × Nat))
-    (hk : ∀ c v c' r, CI s0 dst c → Rel v → k c v = some (c', r) → Post s0 dst thr c c' r)
+    (hk : ∀ c v c' r, CI s0 dst c → Rel v → k c v = some (c', r) → Post fixed s0 dst thr c c' r)
     {c c' : Cl} {v r : Nat} {o : Obj} {kind : Kind} {home : HeapId}
     (hci : CI s0 dst c) (hedges : ∀ e ∈ o.edges, Rel e)
-    (hhome : home = dst ∨ (home = thr ∧ kind = .cell)) (hkind : kind ≠ .thread)
-    (h : viaVisited k dst c v o kind home = some (c', r)) : Post s0 dst thr c c' r := by
+    (hhome : home = dst ∨ (home = thr ∧ kind = .cell)) (hkind : KindNew fixed kind)
+    (h : viaVisited k dst c v o kind home = some (c', r)) : Post fixed s0 dst thr c c' r := by
   unfold viaVisited at h
   cases hl : lookupVis c.vis v with
   | some n =>
@@ -545,7 +556,7 @@ theorem shareable_ext {s0 s : State} {rgen : Option Nat} {v : Nat} (hx : Ext s0 
 theorem cloneVal_post {s0 : State} {dst thr : HeapId} {rgen : Option Nat} {fixed : Bool}
     {Rel : Nat → Prop} (ctx : CloneCtx s0 dst rgen fixed Rel) :
     ∀ (f : Nat) (c : Cl) (v : Nat) (c' : Cl) (r : Nat), CI s0 dst c → Rel v →
-      cloneVal dst thr rgen fixed f c v = some (c', r) → Post s0 dst thr c c' r := by
+      cloneVal dst thr rgen fixed f c v = some (c', r) → Post fixed s0 dst thr c c' r := by
   intro f
   induction f with
   | zero => intro c v c' r _ _ h; simp [cloneVal] at h
@@ -577,18 +588,20 @@ theorem cloneVal_post {s0 : State} {dst thr : HeapId} {rgen : Option Nat} {fixed
         exact ⟨hci, Ext.refl _, ⟨o, hoc, ctx.code v o hrel ho hk⟩, fun n h1 h2 => by omega⟩
       | plain =>
         simp only [hk] at h
-        exact viaVisited_post _ ih hci (hedges (by simp [hk])) (Or.inl rfl) (by simp) h
+        exact viaVisited_post _ ih hci (hedges (by simp [hk])) (Or.inl rfl) (Or.inl rfl) h
       | shallow =>
         have hfx := ctx.noShallow v o hrel ho hs' hk
         subst hfx
         simp only [hk, if_true] at h
-        exact viaVisited_post _ ih hci (hedges (by simp [hk])) (Or.inl rfl) (by simp) h
+        exact viaVisited_post _ ih hci (hedges (by simp [hk])) (Or.inl rfl)
+          (Or.inr (Or.inr ⟨rfl, rfl⟩)) h
       | cell =>
         simp only [hk] at h
         cases fixed with
         | true =>
           simp only [if_true] at h
-          exact viaVisited_post _ ih hci (hedges (by simp [hk])) (Or.inr ⟨rfl, rfl⟩) (by simp) h
+          exact viaVisited_post _ ih hci (hedges (by simp [hk])) (Or.inr ⟨rfl, rfl⟩)
+            (Or.inr (Or.inl rfl)) h
         | false =>
           simp only [Bool.false_eq_true, if_false] at h
           unfold cellCopy at h
@@ -609,7 +622,7 @@ theorem cloneVal_post {s0 : State} {dst thr : HeapId} {rgen : Option Nat} {fixed
               by_cases hn : n = c2.s.next
               · subst hn
                 refine ⟨⟨dst, thr, Kind.cell, es⟩, by simp [State.push], rfl, Or.inr ⟨rfl, rfl⟩,
-                  by simp, ?_⟩
+                  Or.inr (Or.inl rfl), ?_⟩
                 intro e he
                 exact (pl.ok e he).mono pl.ci.wf hx
               · have : n < c2.s.next := by simp [State.push] at h2; omega
@@ -621,7 +634,7 @@ def NoDangling (s : State) : Prop := ∀ q o, s.obj q = some o → ∀ e ∈ o.e
 theorem deepClone_post {s0 s' : State} {dst thr : HeapId} {rgen : Option Nat} {fixed : Bool}
     {Rel : Nat → Prop} (ctx : CloneCtx s0 dst rgen fixed Rel) {v r : Nat} (hv : Rel v)
     (h : deepClone s0 dst thr rgen fixed v = some (s', r)) :
-    WF s' ∧ Ext s0 s' ∧ OKo s' dst r ∧ ∀ n, s0.next ≤ n → n < s'.next → Fin s' dst thr n := by
+    WF s' ∧ Ext s0 s' ∧ OKo s' dst r ∧ ∀ n, s0.next ≤ n → n < s'.next → Fin fixed s' dst thr n := by
   unfold deepClone at h
   cases hc : cloneVal dst thr rgen fixed (cloneFuel s0) ⟨s0, []⟩ v with
   | none => simp [hc] at h
